@@ -103,15 +103,12 @@ ASSUMPTIONS = [
     "save what it was meant to save",
     "a sub-writer process that dies is observed through its traceback on stderr and counted; only a difference in the resulting "
     "index is a violation",
-    "groups: only front-ends that implement grouping take part in the 'groups' cases - the plain SegmentWriter (one segment per "
-    "transaction, documents in call order), MpWriter (overrides start_group/end_group), BufferedWriter and AsyncWriter (both "
-    "inherit IndexWriter's no-op start_group/end_group/group(), which is enough exactly as long as the documents of a group "
-    "reach one underlying SegmentWriter in call order). NOT exercised with groups, because on the unchanged tree they do not "
-    "support them (reported to the lead, not part of this check's verdict): SerialMpWriter (start_group() raises "
-    "AttributeError: '_grouping' is never initialised, and add_document() deals documents round-robin to the sub-writers); a "
-    "BufferedWriter whose limit or flush timer can fire inside a group (the flush puts the first part of the group in its own "
-    "segment), so limit > number of documents of the history and period None/600 s; an AsyncWriter whose writerargs ask for a "
-    "multi-process writer (AsyncWriter does not record/forward start_group/end_group)",
+    "groups: the 'groups' cases run through the plain SegmentWriter, MpWriter (small batch sizes), SerialMpWriter, a "
+    "BufferedWriter whose limit (1..8) is reached inside groups, and an AsyncWriter in front of a plain writer. On the pinned "
+    "tree SerialMpWriter.start_group() raised AttributeError, BufferedWriter flushed inside an open group and AsyncWriter did "
+    "not forward start_group/end_group: three genuine defects (start_group() documents that the backend keeps a group in one "
+    "segment), fixed in /repo; an AsyncWriter whose writerargs ask for a multi-process writer is not exercised (no in-process "
+    "sub-processes in the harness)",
     "groups: histories are add-only (no deletes/updates), keys unique: what NestedParent/NestedChildren do around deleted "
     "documents is another property's business",
     "groups: the relative order of different outermost groups, of ungrouped documents, and the assignment of whole groups to "
@@ -1027,14 +1024,16 @@ def check_groups(ctx, w, ix, h, nqs, cfgname, phase):
 
 
 def gen_group_cfg(rng, kind, ntx, ndocs):
-    """Front-ends that honour groups (see ASSUMPTIONS): the multi-process writer with small batch sizes, the plain writer,
-    a BufferedWriter that never flushes by itself inside a group, an AsyncWriter in front of a plain writer."""
+    """Front-ends of the groups cases (see ASSUMPTIONS): the multi-process writer with small batch sizes, the plain writer,
+    the serial multi-writer, a BufferedWriter with a small limit, an AsyncWriter in front of a plain writer."""
     cfg = gen_cfg(rng, kind, ntx)
     fe = cfg["fe"]
     if kind == "mp":
         fe["batchsize"] = rng.choice([1, 2, 3, 4, 5, 6, 7, 2, 3, 4, 5, 7, 100])
     elif kind == "buffered":
-        fe["limit"] = ndocs + rng.choice([1, 100])
+        # start_group() documents that the backend keeps a group in one segment: a flush by `limit` must wait for the end
+        # of the outermost group
+        fe["limit"] = rng.choice([1, 2, 3, 5, 8, ndocs + 1, ndocs + 100])
         fe["period"] = rng.choice([None, None, 600])
     return cfg
 
@@ -1174,8 +1173,8 @@ def case_product(ctx, idx, rng, mp, groups=False):
     nqs = []
     if groups:
         # the first in-process front-end rotates with the case's position (every shard meets all three early), more are random
-        inproc = ["seg", "buffered", "async"]
-        kinds = ["mp"] * rng.choice([1, 1, 2]) + [inproc[(idx // ctx.nshards // GROUPS_EVERY + idx % ctx.nshards) % 3]]
+        inproc = ["seg", "buffered", "async", "serialmp"]
+        kinds = ["mp"] * rng.choice([1, 1, 2]) + [inproc[(idx // ctx.nshards // GROUPS_EVERY + idx % ctx.nshards) % 4]]
         kinds += [rng.choice(inproc) for _ in range(ctx.pick(0, 1))]
         cfgs = [gen_group_cfg(rng, k, ntx, len(h["live"])) for k in kinds]
     else:
